@@ -48,6 +48,16 @@ TokLinesFrom(gaps, n, k, lfs, acc) ==
          TokLinesFrom(gaps, n, k + 1, here, Append(acc, 1 + here))
 TokLines(gaps, n) == TokLinesFrom(gaps, n, 1, 0, <<>>)
 
+\* the same when some tokens CONTAIN line feeds (the value of a version pragma is one token for the lexer, and the gap
+\* between its comparators is layout): inner = sequence of <<token index, line feeds inside it>>
+InnerLF(inner, k) == LET S == {i \in 1 .. Len(inner) : inner[i][1] = k} IN IF S = {} THEN 0 ELSE inner[CHOOSE i \in S : TRUE][2]
+RECURSIVE TokLinesInnerFrom(_, _, _, _, _, _)
+TokLinesInnerFrom(gaps, inner, n, k, lfs, acc) ==
+    IF k > n THEN acc
+    ELSE LET here == lfs + GapLF(gaps[k], 1) IN
+         TokLinesInnerFrom(gaps, inner, n, k + 1, here + InnerLF(inner, k), Append(acc, 1 + here))
+TokLinesInner(gaps, inner, n) == TokLinesInnerFrom(gaps, inner, n, 1, 0, <<>>)
+
 \* every token after the first is on a line of its own
 Injective(gaps, n) == \A k \in 2 .. n : GapLF(gaps[k], 1) >= 1
 
